@@ -103,6 +103,8 @@ type FnCtx struct {
 	rangeIdx    []*types.Var
 	staticRecvName string
 	siteOrd     map[*ast.CallExpr]map[string]int
+	frame       frameAllow
+	curPos      token.Pos
 }
 
 // isOpaqueStruct: library structs whose fields are never inspected (time.Time, sync.Mutex, ...).
@@ -168,7 +170,11 @@ func sanitizeSym(s string) string {
 
 // define introduces a name for t when it is large (keeps formulas DAG-sized).
 func (fc *FnCtx) define(t T, hint string) T {
-	if len(t.S) <= 48 || fc.inQuant > 0 {
+	if fc.inQuant > 0 {
+		return t
+	}
+	// heaps are always named: they occur inside quantifier patterns, where `ite`/`store` terms are not allowed
+	if len(t.S) <= 48 && !(t.Sort == SHeap && strings.HasPrefix(t.S, "(")) {
 		return t
 	}
 	n := fc.fresh(hint, t.Sort)
